@@ -93,8 +93,11 @@ func (c *WebsocketNetConn) Write(bs []byte) (count int, err error) {
 // CloseWrite implements the half-close of the net.TCPConn type: it tells the peer
 // that no more data will be written (by sending a websocket close message) while
 // leaving the other direction of the connection usable.
+//
+// Like the data written before it, the close message waits for as long as the
+// peer takes to read what is already in flight; it has no deadline of its own.
 func (c *WebsocketNetConn) CloseWrite() error {
-	return c.WriteControl(websocket.CloseMessage, websocket.FormatCloseMessage(websocket.CloseNormalClosure, ""), time.Now().Add(time.Second))
+	return c.WriteControl(websocket.CloseMessage, websocket.FormatCloseMessage(websocket.CloseNormalClosure, ""), time.Time{})
 }
 
 // newWebsocketNetConn wraps the given websocket connection.
